@@ -53,7 +53,7 @@ theorem toksOf_restCmds (t : FileD) :
     toksOf (restCmds t) false 2 =
       lineToks syntaxLine 2 ++ (lineToks (packageLine t) 4 ++
         (lexLines ((sortImports t.imports).map importLine) 6 ++
-          toksOf (elemsCmds 0 t.items true 0 0) true (itemsStart t))) := by
+          kT 0 t.items true 0 0 true (itemsStart t))) := by
   unfold restCmds
   have hlen : (sortImports t.imports).length = t.imports.length := (sortImports_perm t.imports).length_eq
   rw [toksOf_append, toksOf_append, toksOf_append]
@@ -304,7 +304,7 @@ theorem parse_print (gen : String) (t : FileD) (h : SimpleFile gen t) :
       T (.sym '=') 2 :: T (.str "\"proto3\"") 2 :: T (.sym ';') 2 ::
         (T (.ident "package") 4 :: (tyToks false first rest 4 ++ T (.sym ';') 4 ::
           (lexLines ((sortImports t.imports).map importLine) 6 ++
-            (toksOf (elemsCmds 0 t.items true 0 0) true (itemsStart t) ++ [T .eof N])))) := by
+            (kT 0 t.items true 0 0 true (itemsStart t) ++ [T .eof N])))) := by
     rw [hX]; simp
   -- fuel
   have hc1 := count_tops t.items h.items 0 true 0 0 (itemsStart t) true
@@ -316,13 +316,13 @@ theorem parse_print (gen : String) (t : FileD) (h : SimpleFile gen t) :
       (⟨Grammar.Tok.ident "syntax", 2, cm0⟩ :: T (.sym '=') 2 :: T (.str "\"proto3\"") 2 :: T (.sym ';') 2 ::
         (T (.ident "package") 4 :: (tyToks false first rest 4 ++ T (.sym ';') 4 ::
           (lexLines ((sortImports t.imports).map importLine) 6 ++
-            (toksOf (elemsCmds 0 t.items true 0 0) true (itemsStart t) ++ [T .eof N]))))).length := by
+            (kT 0 t.items true 0 0 true (itemsStart t) ++ [T .eof N]))))).length := by
     simp only [List.length_cons, List.length_append]
     omega
   generalize hL : (⟨Grammar.Tok.ident "syntax", 2, cm0⟩ :: T (.sym '=') 2 :: T (.str "\"proto3\"") 2 :: T (.sym ';') 2 ::
         (T (.ident "package") 4 :: (tyToks false first rest 4 ++ T (.sym ';') 4 ::
           (lexLines ((sortImports t.imports).map importLine) 6 ++
-            (toksOf (elemsCmds 0 t.items true 0 0) true (itemsStart t) ++ [T .eof N]))))).length = len at hlen
+            (kT 0 t.items true 0 0 true (itemsStart t) ++ [T .eof N]))))).length = len at hlen
   obtain ⟨F5, hF5, hb⟩ : ∃ F5, len + 1 = ((((F5 + 1) + t.items.length) + (sortImports t.imports).length) + 1) + 1 ∧
       needAll t.items ≤ F5 + 1 :=
     ⟨len - t.items.length - (sortImports t.imports).length - 2, by omega, by omega⟩
